@@ -10,32 +10,6 @@ stands — ONLY the declared cells mapped, every argument combination, every con
 namespace SafeC.Props.C02
 open SafeC Gen
 
-/-- mapped and declared writable -/
-def Wr (st : St) (a : Nat) : Prop := st.mapped a = true ∧ st.wr a = true
-
-theorem runs_of_Acc {α} {p : Prog α} {Q : α → Prop} {st : St} (h : Acc (Rd st) (Wr st) p Q) : Runs p st := by
-  obtain ⟨r, st', he, _, hs, _⟩ := h.sound st (fun _ h => h) (fun _ h => h)
-  exact ⟨r, st', he, hs⟩
-
-theorem Rd_of_RD {st : St} {p n : Nat} (h : RD st p n) : ∀ a, Cells p n a → Rd st a := by
-  intro a ⟨h1, h2⟩
-  have := h (a - p) (by omega)
-  rwa [show p + (a - p) = a by omega] at this
-
-theorem Rd_of_RW {st : St} {p n : Nat} (h : RW st p n) : ∀ a, Cells p n a → Rd st a := by
-  intro a ⟨h1, h2⟩
-  have := h (a - p) (by omega)
-  rw [show p + (a - p) = a by omega] at this
-  exact ⟨this.1, this.2.2⟩
-
-theorem Wr_of_RW {st : St} {p n : Nat} (h : RW st p n) : ∀ a, Cells p n a → Wr st a := by
-  intro a ⟨h1, h2⟩
-  have := h (a - p) (by omega)
-  rw [show p + (a - p) = a by omega] at this
-  exact ⟨this.1, this.2.1⟩
-
-theorem Cells.sub {p n m a : Nat} (h : Cells p m a) (hm : m ≤ n) : Cells p n a := ⟨h.1, by have := h.2; omega⟩
-
 /-- **strrchr_s** (FULL, after the repair of the tail read): `strnlen_s(dest, dmax)` then `memrchr` over at most
 `dmax` cells — the unterminated array that exactly fills `dmax` included -/
 theorem strrchr_s_C02 (dest dmax : Nat) (ch : Int) (db : Bos) (st : St) (hrd : dest ≠ 0 → RD st dest dmax) :
